@@ -31,6 +31,8 @@ ENGINES = [
      "kind_free_text": "documented block transfer functions in TLA+ over exact rationals, verified on extracted realisations"},
     {"name": "acnetwork", "path": "spec/ACNetwork.tla spec/Scen_ACNetwork.tla spec/NewtonPF.tla spec/Trace_PF.tla vh/acdrv.py vh/pfdrv.py vh/aclattice.py",
      "serves_properties": ["C01", "C03"], "kind_free_text": "exact power balance and Jacobian in TLA+ on a lattice; Newton loop model"},
+    {"name": "inithandover", "path": "spec/InitHandover.tla spec/Scen_InitHandover.tla spec/Trace_Init.tla vh/initdrv.py", "serves_properties": ["C05"],
+     "kind_free_text": "TLA+ model of the PF -> dynamics hand-over; scenarios and stock cases initialised and validated by TLC"},
     {"name": "connectivity", "path": "spec/Connectivity.tla spec/Trace_Connectivity.tla spec/Scen_Connectivity.tla vh/conndrv.py vh/netbuild.py",
      "serves_properties": ["C12"], "kind_free_text": "graph definitions in TLA+ evaluated by TLC on logged graphs of real Systems; ConnMan model-checked"},
     {"name": "lifecycle", "path": "spec/Lifecycle.tla spec/Trace_Lifecycle.tla spec/Scen_Lifecycle.tla vh/lifecycle.py vh/infeasible.py",
@@ -226,6 +228,21 @@ CHECKS["C03"] = dict(
     note=TRUSTED.replace("vh/tdsdrv.py: ranks of floats, booleans computed on floats", "vh/acdrv.py, vh/pfdrv.jac_stock: numeric predicates (1e-6 lattice, 1e-4 finite differences)")
          + "Symbolic derivative equality per model is not decided; the finite-difference clause is numeric. Known findings: "
            "equations that depend on VarServices have no Jacobian entries for that dependence.")
+
+CHECKS["C05"] = dict(
+    engine="inithandover", design_ref="DESIGN.md 4 (C05)",
+    technique="TLC model checking of InitHandover + TLC-enumerated hand-over scenarios on generated systems + TDS.init and an undisturbed "
+              "run of stock cases, validated by TLC",
+    text="The hand-over design (static generator off iff an online dynamic device refers to it, shares, residual test, exit code) "
+         "is model-checked; hand-over scenarios (two machines sharing one static generator with shares in tenths, each on/off, a "
+         "machine on the slack) are built as real systems and stock cases are initialised and run undisturbed; TLC validates that "
+         "bus voltages are bit-equal to the power-flow solution, static generators are switched exactly as required, the verdict "
+         "equals an independent evaluation of the residuals (NaN = failure), failure bumps the exit code, injections are preserved "
+         "and the trajectory stays (1e-3 relative).",
+    note=TRUSTED.replace("vh/tdsdrv.py: ranks of floats, booleans computed on floats", "vh/initdrv.py: predicates on residuals / drift with stated thresholds")
+         + "Only model combinations present in stock cases and the generated systems; whether stock data are 'consistent and inside "
+           "limiter ranges' is unknown, so 'initialisation succeeds' is only demanded of the generated consistent scenarios. Known "
+           "findings: three stock cases pass the test but move.")
 
 NOT_APPLICABLE = [
     {"property_id": "C07", "reason": "numeric accuracy / convergence order against closed-form and matrix-exponential references: no "
